@@ -25,7 +25,6 @@ import os
 import pathlib
 import shutil
 import subprocess
-import sys
 import tempfile
 
 import pydsdl
